@@ -464,3 +464,25 @@ def worker_main(argv):
     res = ctx.result()
     with open(out_path, 'w') as f:
         json.dump(res, f, default=repr)
+
+
+def shrink_list(items, still_fails, max_runs=400):
+    """Greedy one-at-a-time / chunk removal (ddmin-like) keeping `still_fails(items)` true."""
+    items = list(items)
+    runs = 0
+    chunk = max(1, len(items) // 2)
+    while chunk >= 1 and runs < max_runs:
+        i = 0
+        changed = False
+        while i < len(items) and runs < max_runs:
+            cand = items[:i] + items[i + chunk:]
+            runs += 1
+            if cand != items and still_fails(cand):
+                items = cand
+                changed = True
+            else:
+                i += chunk
+        if chunk == 1 and not changed:
+            break
+        chunk = max(1, chunk // 2) if chunk > 1 else (1 if changed else 0)
+    return items
